@@ -456,6 +456,9 @@ Section Main.
     else
       {| exit_ok := false; out := []; traceback := true; served := false; store := st; refresh := rf |}.
 
+  (* descriptor 1 was closed under sys.stdout: the line is lost.  The exit status then depends on which later
+     open() re-occupies descriptor 1 (120, 1 and 0 are observed); exit_ok = false stands for "not exit 0 with
+     the line on stdout" and is not compared with the real status. *)
   Definition broken (st : stored) (rf : bool) : outcome :=
     {| exit_ok := false; out := []; traceback := false; served := false; store := st; refresh := rf |}.
 
